@@ -720,11 +720,11 @@ func runI(t *testing.T, ch *vs.Choices, prop, tier string, render bool) *vs.RunO
 				break
 			}
 		}
-		rendered(map[string]any{"dump0": first.dump, "err0": fmt.Sprint(first.err)})
+		rendered(map[string]any{"dump0": first.dump, "err0": vs.StripDir(fmt.Sprint(first.err), dir)})
 		return out
 	}
 	lr := loads[0]
-	rendered(map[string]any{"dump": lr.dump, "err": fmt.Sprint(lr.err)})
+	rendered(map[string]any{"dump": lr.dump, "err": vs.StripDir(fmt.Sprint(lr.err), dir)})
 	if m.err != "" {
 		out.Hit("expected_error:" + m.err)
 		if lr.err == nil {
